@@ -548,7 +548,9 @@ func (f *Frame) builtin(b *ssa.Builtin, c *ssa.CallCommon, instr ssa.Value, st *
 		v := args[0]
 		switch {
 		case v.Sort == "Str":
-			return Val{Sort: "Int", Term: g.def(f.name(instr), "Int", fmt.Sprintf("(str_len %s)", v.Term)), GoT: instr.Type()}
+			t := g.def(f.name(instr), "Int", fmt.Sprintf("(str_len %s)", v.Term))
+			g.assume(fmt.Sprintf("(<= %s %s)", t, maxAllocBytes)) // A-MEM: a string that exists fits the address space
+			return Val{Sort: "Int", Term: t, GoT: instr.Type()}
 		case g.sorts.sliceEl[v.Sort] != "":
 			return Val{Sort: "Int", Term: g.def(f.name(instr), "Int", fmt.Sprintf("(%s_%s %s)", b.Name(), v.Sort, v.Term)), GoT: instr.Type()}
 		case strings.HasPrefix(v.Sort, "MapRef_"):
